@@ -705,6 +705,10 @@ def call_repo_function(I, fobj, args, kwargs, node, fr):
     sx = _sx()
     key = "%s:%s" % (fobj.__module__, fobj.__qualname__.replace(".<locals>", ""))
     c = I.registry.get(key) if I.registry else None
+    stubs = getattr(I.current_contract, "stubs", None)
+    if stubs and key in stubs:
+        I.contract_calls.add(key + " (stub)")
+        return apply_contract(I, stubs[key], args, kwargs, node)
     if c is not None and not c.inline and not (I.current_contract is c and I.depth == 0):
         I.contract_calls.add(key)
         return apply_contract(I, c, args, kwargs, node)
